@@ -5,6 +5,7 @@ import Fosite.Driver.PureAudience
 import Fosite.Driver.PureHMAC
 import Fosite.Driver.PureRedirect
 import Fosite.Driver.PureRender
+import Fosite.Driver.PureClientAuth
 namespace Fosite.Driver
 open Fosite
 
@@ -18,6 +19,7 @@ def pureModel (fs : List String) : Option String :=
   | "hmac" :: _ => pureModelHMAC fs
   | "redirect" :: _ => pureModelRedirect fs
   | "render" :: _ => pureModelRender fs
+  | "clientauth" :: _ => pureModelClientAuth fs
   | _ => none
 
 /-- spec side: the documented meaning, used as the monitor oracle on implementation outputs -/
@@ -30,6 +32,7 @@ def pureSpec (fs : List String) : Option String :=
   | "hmac" :: _ => pureSpecHMAC fs
   | "redirect" :: _ => pureSpecRedirect fs
   | "render" :: _ => pureSpecRender fs
+  | "clientauth" :: _ => pureSpecClientAuth fs
   | _ => none
 
 end Fosite.Driver
